@@ -743,6 +743,23 @@ pub fn partition_suites(thorough: bool) -> Vec<Suite> {
         v.push(crash_suite(&format!("part-edge-v{format}"), disk(format, true, false), edge_tables(), edge_ops(), d(5, 7)));
     }
     v.push(crash_suite("part-ttl-v3", disk(3, false, true), std_tables(), tier_focus_ops(true), d(5, 6)));
+    // extents of hundreds of blocks: retired spans longer than one marker write, holes
+    // reused by slightly smaller extents, restarts in between
+    {
+        let mut t = std_tables();
+        let l1 = t.values.len() as u8;
+        t.values.push(big_value(1_572_864, 0x31)); // 385 blocks
+        t.values.push(big_value(1_228_800, 0x32)); // 301 blocks
+        t.values.push(big_value(1_048_576 - 64, 0x33)); // 256 blocks exactly with its header
+        let ops = if thorough {
+            vec![ins(0, l1), ins(0, l1 + 1), ins(1, l1 + 1), ins(1, l1 + 2), ins(1, V_X), Op::Delete { k: 0, ts: 0 }, Op::Flush, Op::Reopen]
+        } else {
+            vec![ins(0, l1), ins(1, l1 + 1), Op::Delete { k: 0, ts: 0 }, Op::Flush, Op::Reopen]
+        };
+        let mut s = crash_suite("part-large-v3", small_disk(3, 2000), t, ops, d(6, 7));
+        s.uncapped_levels = 1;
+        v.push(s);
+    }
     v
 }
 
